@@ -505,22 +505,29 @@ def seqLensAux (cum : List Nat) : Nat → List Nat → List Nat
 
 def seqLens (lineLens : List Nat) (nLines : List Nat) : List Nat := seqLensAux (psum 0 lineLens) 0 nLines
 
-/-- `get_data`: header lines are the lines that start with the marker; lines per entry from the header positions;
-the sequence of an entry is the flat text of the sequence lines cut by `seq_lens`
-(CR stripped when one of the first 10 lines has it) -/
-def parseFasta (S : Schema) (bs : Bytes) : Except Err (Nat × List Col) := do
-  let ls ← fastaLines S.marker bs
-  let cr := (ls.take 10).any (fun l => l.getLast? = some 13)
-  let ls := if cr then ls.map stripCR else ls
-  let isH := fun (l : Bytes) => l.head? = some S.marker
-  let newEntries := (List.zip (List.range ls.length) ls).filterMap (fun p => if isH p.2 then some p.1 else none)
+/-- positions (line numbers, counted from `k`) of the lines that start with the marker (`np.flatnonzero`) -/
+def headerIdx (marker : Nat) : Nat → List Bytes → List Nat
+  | _, [] => []
+  | k, l :: ls => if l.head? = some marker then k :: headerIdx marker (k + 1) ls else headerIdx marker (k + 1) ls
+
+/-- `get_data` on the lines of the buffer: header lines are the lines that start with the marker; lines per entry
+from the header positions; the sequence of an entry is the flat text of the sequence lines cut by `seq_lens` -/
+def fastaGroup (marker : Nat) (ls : List Bytes) : List Bytes × List Bytes :=
+  let isH := fun (l : Bytes) => l.head? = some marker
+  let newEntries := headerIdx marker 0 ls
   let bounds := newEntries ++ [ls.length]
   let nLines := (List.zip bounds (bounds.drop 1)).map (fun ab => ab.2 - ab.1 - 1)
   let seqLines := ls.filter (fun l => !isH l)
   let lens := seqLens (seqLines.map List.length) nLines
-  let seqs := unflatten lens seqLines.flatten
-  let names := (ls.filter isH).map List.tail
-  pure (names.length, [Col.strs names, Col.strs seqs])
+  ((ls.filter isH).map List.tail, unflatten lens seqLines.flatten)
+
+/-- (CR stripped when one of the first 10 lines has it) -/
+def parseFasta (S : Schema) (bs : Bytes) : Except Err (Nat × List Col) := do
+  let ls ← fastaLines S.marker bs
+  let cr := (ls.take 10).any (fun l => l.getLast? = some 13)
+  let ls := if cr then ls.map stripCR else ls
+  let g := fastaGroup S.marker ls
+  pure (g.1.length, [Col.strs g.1, Col.strs g.2])
 
 /-- VCF POS is 1-based in the file, 0-based in the entry -/
 def shiftCol (j : Nat) (d : Int) (cols : List Col) : List Col :=
